@@ -238,14 +238,19 @@ check("C12", "exploration",
       "per-parameter alphabets. Released buckets: dp_for_histogram on the three real helpers (32 buckets, output widths 8/16/32, both "
       "security modes, epsilon in {0.5, 2, 8} (0.1)): the same world run on the all-zero histogram gives the noise vector N, every "
       "other histogram h (incl. totals at the top of the range) must be released as h + N mod 2^w, as a consistent sharing, and N must "
-      "lie within three support radii. distinct_nontrivial = distinct configurations / support points / parameter tuples / buckets executed.",
+      "lie within three support radii. Dummy records: apply_dp_padding on the three real helpers for hybrid reports (both modes) and "
+      "aggregation rows, two parameter sets x 12 (60) seeds: the rows added are consistent sharings with value 0 (and breakdown key 0 / "
+      "below the bucket count), hybrid dummies come in match-key groups of size 1..cap that never reuse a real match key, group and "
+      "per-bucket counts stay within three draws of the support, the input rows are preserved. distinct_nontrivial = distinct configurations / support points / parameter tuples / buckets executed.",
       [{"name": "noise", "config": "A", "test": "protocol::dp::verif::c12::run",
         "require": {"any": {"truncation_points_checked": 200, "distinct:sampler_configs": 6, "share_mapping_cases_w32": 50}}},
        {"name": "released", "config": "A", "test": "protocol::dp::verif::c12n::run",
-        "require": {"any": {"released_buckets": 1000, "noise_vectors": 10, "distinct:noise_values": 8}}}],
+        "require": {"any": {"released_buckets": 1000, "noise_vectors": 10, "distinct:noise_values": 8}}},
+       {"name": "dummies", "config": "A", "test": "verif::c12d::run",
+        "require": {"any": {"dummy_rows": 2000, "padding_runs": 50, "distinct:groups_per_cardinality": 6}}}],
       assumptions=["rand::distributions::Bernoulli draws one u64 per sample and succeeds iff it is below p*2^64",
                    "the released-bucket identity is checked differentially (same seed and gate => same noise): the three individual draws are not separated",
-                   "dummy-record sharings are exercised through the padded C01/C02 runs (histogram unchanged by padding), not here",
+                   "the number of dummy records is checked against the support of the sampler here and against its law in the coin-tree part",
                    "the binomial mechanism (not reachable from a query) only in the semi-honest mode"],
       exhaustive=True, engine="E6 coin + E5 domain",
       technique="weighted exhaustive exploration of the probabilistic sampler's coin tree (every outcome sequence above a mass floor, "
